@@ -27,6 +27,12 @@ for d in seeded/$pat/; do
     code=$?
     n=$(grep -c '^VIOLATION' /tmp/regress.$id.$p.log)
     res="$res $p:exit=$code,viol=$n"
+    # keep the first minimised case that convicted this change (the corpus)
+    if [ $code -eq 1 ] && [ -n "$CORPUS" ]; then
+      f=$(ls "$CRDSIM_OUT"/replays/$p-*.json 2>/dev/null | head -1)
+      if [ -n "$f" ] && [ $(stat -c %s "$f") -le 262144 ] && [ ! -e "/verif/corpus/$p-$id.json" ]; then mkdir -p /verif/corpus && cp "$f" "/verif/corpus/$p-$id.json"; fi
+    fi
+    rm -rf "$CRDSIM_OUT"/replays
     [ -n "$SIG" ] && sigs="$sigs $(grep -E 'signature:|unsupported|crdsim: (type|go build)' /tmp/regress.$id.$p.log | sed 's/.*signature: *//' | cut -c1-160 | sort -u | head -6 | tr '\n' ';')"
   done
   case "$res" in
